@@ -259,6 +259,25 @@ def run_tlc(scratch, module, cfg, workers=4, timeout=600, simulate=None, depth=N
     return res
 
 
+def run_apalache(scratch, module_path, args, timeout=900):
+    """apalache-mc check <args> <module> in a scratch dir -> ("ok" | "violation" | "error", output tail)."""
+    d = tempfile.mkdtemp(prefix="apa-", dir=scratch)
+    shutil.copy(module_path, d)
+    cmd = ["apalache-mc", "check", "--out-dir=" + os.path.join(d, "out")] + list(args) + [os.path.basename(module_path)]
+    env = dict(os.environ)
+    env["TMPDIR"] = d
+    try:
+        r = subprocess.run(cmd, cwd=d, env=env, stdout=subprocess.PIPE, stderr=subprocess.STDOUT, text=True, timeout=timeout)
+    except subprocess.TimeoutExpired:
+        return "error", "timeout"
+    out = r.stdout
+    if "The outcome is: NoError" in out and "EXITCODE: OK" in out:
+        return "ok", out[-600:]
+    if "The outcome is: Error" in out and "violated" in out:
+        return "violation", out[-1200:]
+    return "error", out[-1500:]
+
+
 def tlc_must_pass(res, what):
     if res.timeout:
         raise Inconclusive("TLC timeout in %s" % what)
